@@ -15,7 +15,7 @@ func init() {
 		Explanation: "Structural necessary conditions of 'Kubernetes shards are ordered by ordinal; scaling deletes only removed volumes', decided on pkg/shard/kubernetes: " +
 			"R18.1 ordinal order: shards are appended in a loop over 0..n-1, each taken from a name→pod table (filled from every listed pod under its own name) by the key '<set>-<index>' rendered from the StatefulSet's name and the loop index; id, address and readiness come from that entry; " +
 			"R18.2 deletion range: every claim Delete sits in a loop whose index starts at old−1 (old = the replica count read before it is overwritten), steps by −1 and continues while index ≥ the requested count; the claim name is '<template>-<set>-<index>' from those three sources; " +
-			"R18.3 guards: Delete only under deletePVC ∧ the Update succeeded; Update only when the replica count is set and differs from the request; the value stored is the request; " +
+			"R18.3 guards: Delete only under deletePVC ∧ the Update succeeded; Update only when the replica count of the StatefulSet just read from the API server (Get) is set and differs from the request, and no successful return precedes that read; the value stored is the request; " +
 			"R18.4 rolling update: a manager is appended only under Status.Replicas == Status.UpdatedReplicas. " +
 			"Not decided: the behaviour of the Kubernetes API server / fake clientset.",
 		Assumptions: []string{"go/types and go/ssa are correct", "StatefulSet pod naming <set>-<ordinal> and claim naming <template>-<set>-<ordinal> (Kubernetes convention)"}})
@@ -244,7 +244,33 @@ func runC18(p *engine.Prog, r *engine.Report) {
 					probs3 = append(probs3, "the object passed to Update is not the one whose replica count was changed")
 				}
 			}
-			r.Check(len(probs3) == 0, "R18.3-guards", "StatefulSet update in "+engine.FuncName(fn), "Update at "+p.Rel(update.Pos()), "Replicas != nil ∧ *Replicas != request; Spec.Replicas = request stored before; same object", strings.Join(probs3, "; "))
+			// "unchanged" and "changed" are decided on the StatefulSet as it is now, not on the copy taken when the replicas were listed
+			var get *ssa.Call
+			for _, in := range allInstrs(fn) {
+				if call, ok := in.(*ssa.Call); ok && call.Call.IsInvoke() && call.Call.Method.Name() == "Get" && strings.Contains(call.Call.Value.Type().String(), "StatefulSetInterface") {
+					get = call
+				}
+			}
+			if get == nil {
+				probs3 = append(probs3, "the StatefulSet is not read from the API server before deciding")
+			} else {
+				gt := fi.T(get).S
+				for _, ret := range returnsOf(fn) {
+					if isNilConst(returnedValue(ret, 0)) && !engine.InstrDominates(get, ret) {
+						probs3 = append(probs3, "ChangeScale can report success at "+p.Rel(ret.Pos())+" without having read the live StatefulSet (a request that differs from the live replica count would be dropped)")
+					}
+				}
+				live := false
+				for _, g := range gl {
+					if strings.HasPrefix(g, "¬eq0(") && strings.Contains(g, gt+".0.Spec.Replicas") {
+						live = true
+					}
+				}
+				if !live {
+					probs3 = append(probs3, "the comparison with the request is not made on the StatefulSet returned by Get")
+				}
+			}
+			r.Check(len(probs3) == 0, "R18.3-guards", "StatefulSet update in "+engine.FuncName(fn), "Update at "+p.Rel(update.Pos()), "decided on the live object (Get): Replicas != nil ∧ *Replicas != request; Spec.Replicas = request stored before; same object", strings.Join(probs3, "; "))
 		}
 		if del != nil {
 			var probs []string
